@@ -4,6 +4,7 @@ import (
 	"encoding/json"
 	"fmt"
 	"os"
+	"path/filepath"
 	"sort"
 )
 
@@ -92,6 +93,7 @@ func main() {
 	}
 	r := newRun(id, tier)
 	r.Level = "model_checking"
+	replayRegress(id, def, r)
 	def.run(r)
 	os.Exit(r.Finish())
 }
@@ -132,4 +134,32 @@ func checkC13R(c Case) *Failure {
 		return c13Seq(c)
 	}
 	return checkC13(c)
+}
+
+// replayRegress re-decides the recorded witnesses of defects that were repaired
+// (/verif/replays/regress/<ID>-*.json): a fixed entry suppresses nothing, so a
+// witness that fails again is reported like any other violation.
+func replayRegress(id string, def checkDef, r *Run) {
+	files, _ := filepath.Glob(filepath.Join(verifRoot, "replays", "regress", id+"-*.json"))
+	sort.Strings(files)
+	n := 0
+	for _, f := range files {
+		b, err := os.ReadFile(f)
+		if err != nil {
+			continue
+		}
+		var v struct {
+			Case Case   `json:"case"`
+			Sig  string `json:"sig"`
+		}
+		if json.Unmarshal(b, &v) != nil || def.replay == nil {
+			continue
+		}
+		n++
+		if fl := def.replay(v.Case); fl != nil {
+			fl.Sig = fl.Sig + "#regression-of-" + filepath.Base(f)
+			r.Fail(v.Case, fl)
+		}
+	}
+	r.Extra("regression_witnesses_replayed", n)
 }
